@@ -18,19 +18,19 @@ import (
 const w1Inf = int64(1) << 62
 
 type w1PubSess struct {
-	name                                   string
-	path                                   string
-	skip                                   bool
-	findCall, findRet                      int64
-	findOK                                 bool
-	addCall, addRet                        int64
-	ok                                     bool
-	pathObj                                int64
-	closeSeq, removeCall, removeRet        int64
-	firstSerial, lastSerial                int64
-	authSeen                               bool
-	idByte                                 int64
-	addCallT, addRetT                      time.Duration
+	name                            string
+	path                            string
+	skip                            bool
+	findCall, findRet               int64
+	findOK                          bool
+	addCall, addRet                 int64
+	ok                              bool
+	pathObj                         int64
+	closeSeq, removeCall, removeRet int64
+	firstSerial, lastSerial         int64
+	authSeen                        bool
+	idByte                          int64
+	addCallT, addRetT               time.Duration
 }
 
 type w1Write struct {
@@ -42,27 +42,27 @@ type w1Write struct {
 }
 
 type w1RdSess struct {
-	name                         string
-	path                         string
-	skip                         bool
-	addCall, addRet              int64
-	addCallT, addRetT            time.Duration
-	ok                           bool
-	errText                      string
-	pathObj, streamObj           int64
-	maxReaders                   int64
-	saddRet                      int64
-	closeSeq                     int64
-	closeT                       time.Duration
-	nclose                       int
-	closeSeqs                    []int64
-	sremCall, sremRet            int64
-	discarded                    int64
-	premoveCall, premoveRet      int64
-	premoveCallT                 time.Duration
-	datas                        []simrt.Ev
-	readds                       [][3]int64 // call, ret, failedWithMax
-	errSeq                       int64
+	name                    string
+	path                    string
+	skip                    bool
+	addCall, addRet         int64
+	addCallT, addRetT       time.Duration
+	ok                      bool
+	errText                 string
+	pathObj, streamObj      int64
+	maxReaders              int64
+	saddRet                 int64
+	closeSeq                int64
+	closeT                  time.Duration
+	nclose                  int
+	closeSeqs               []int64
+	sremCall, sremRet       int64
+	discarded               int64
+	premoveCall, premoveRet int64
+	premoveCallT            time.Duration
+	datas                   []simrt.Ev
+	readds                  [][3]int64 // call, ret, failedWithMax
+	errSeq                  int64
 }
 
 func (r *w1RdSess) defEnd() int64 {
